@@ -79,6 +79,19 @@ def hooks(inner):
         while isinstance(v, Ptr): v = v.get()
         return V.StrTok(v['key'])          # the value's partition key (an arbitrary string)
 
+    def h_event_get_str(ex, st, callee, args):
+        # Event::get_str: the field's string content when the field is present AND holds a Str (whose partition key is that very string)
+        e = args[0]
+        while isinstance(e, Ptr) and isinstance(e.get(), Ptr): e = e.get()
+        ev = e.get() if isinstance(e, Ptr) else e
+        o = ev[2].opt
+        pay = (o.fields.get('Some') or [None])[0]
+        v = pay
+        while isinstance(v, Ptr): v = v.get()
+        if not isinstance(v, dict): return none()
+        cond = And(o.disc == 1, v['is_str'])
+        return Fork([(cond, lambda ex, st, a: some(box(V.StrTok(a[0]['key'])))), (Not(cond), lambda ex, st, a: none())], args=[v])
+
     def h_identity(ex, st, callee, args): return args[0]
     def h_to_string(ex, st, callee, args): return V.StrTok(tok(args[0]))
     def h_str_ref(ex, st, callee, args): return box(V.StrTok(tok(args[0])))
@@ -113,7 +126,7 @@ def hooks(inner):
 
     S = r'(?:std::string::)?String'
     return [
-        (r'^(?:event::)?Event::get(?:::<.*>)?$', h_event_get),
+        (r'^(?:event::)?Event::get(?:::<.*>)?$', h_event_get), (r'^(?:event::)?Event::get_str$', h_event_get_str),
         (r'^(?:varpulis_core::)?Value::to_partition_key$', h_partition_key), (r'^Cow::<\'_, str>::into_owned$', h_identity),
         (r'^<str as ToString>::to_string$', h_to_string), (r'^<%s as (?:std::ops::)?Deref>::deref$' % S, h_str_ref),
         (r'^<Arc<(?:event::)?Event> as (?:std::ops::)?Deref>::deref$', lambda ex, st, callee, args: (args[0].get() if isinstance(args[0], Ptr) and isinstance(args[0].get(), Ptr) else args[0])),
@@ -145,7 +158,7 @@ def job(spec):
     vals = {'partition_key': V.StrTok(BitVecVal(1, 16)), 'windows': table}; vals.update(pvals)
     outer_v = [vals[f] for f in of]
     ekey = BitVec('event_key', 16)
-    value = {'key': ekey}
+    value = {'key': ekey, 'is_str': z3.Bool('event_key_is_str')}      # the field's value: its partition key token, and whether it is a Str (integers, floats ... are not)
     opt = Enum('Option', BitVecVal(1 if present else 0, 64), {'Some': [box(value)], 'None': []})
     evcell = [[Opaque('type'), BitVec('ts', 64), EvData(opt), '#e']]
     cell = [outer_v]
